@@ -1,27 +1,52 @@
 ------------------------------- MODULE Amounts -------------------------------
-(* Decimal bitcoin amounts ("--tx=<amount>,<amount>:<hex>") to satoshis, exactly.                     *)
-(* amount := optional minus, then 0 or a number without leading zeros, then optionally a point and   *)
-(* at least one digit; at most 8 significant decimals.                                                *)
+\*  Bitcoin amounts ("--tx=<amount>,<amount>:<hex>") to satoshis, exactly.
+\*  amount   := [-] mantissa [exponent]
+\*  mantissa := (0 | digit1-9 digit*) [. digit+]          exponent := (e|E) [+|-] digit+
+\*  value    := mantissa x 10^exponent bitcoin = mantissa x 10^(exponent + 8) satoshi.
+\*  Accepted exactly when that is a whole number of satoshi of at most 18 decimal digits; the result is
+\*  that number.  (A plain decimal amount is the case without exponent: at most 8 significant
+\*  fractional digits, at most 10 integer digits.)
+\*  Third component: TRUE where the rule above is not compared - a zero mantissa with an exponent part
+\*  (the tool refuses 0e-9 although 0 is exact; nobody writes amounts that way).
 EXTENDS BigNat
 
 IsDig(c) == c >= 48 /\ c <= 57
 RECURSIVE StripTrailingZeros(_)
 StripTrailingZeros(cs) == IF cs # <<>> /\ cs[Len(cs)] = 48 THEN StripTrailingZeros(SubSeq(cs, 1, Len(cs) - 1)) ELSE cs
+RECURSIVE StripLeadingZeros(_)
+StripLeadingZeros(cs) == IF cs # <<>> /\ cs[1] = 48 THEN StripLeadingZeros(Tail(cs)) ELSE cs
 RECURSIVE DigitsToNat(_, _)
 DigitsToNat(cs, acc) == IF cs = <<>> THEN acc ELSE DigitsToNat(Tail(cs), Add(MulSmall(acc, 10), FromInt(cs[1] - 48)))
+RECURSIVE SmallNat(_, _)
+SmallNat(cs, acc) == IF cs = <<>> THEN acc ELSE SmallNat(Tail(cs), acc * 10 + (cs[1] - 48))
 IndexOf(cs, c) == IF \E i \in 1..Len(cs) : cs[i] = c THEN CHOOSE i \in 1..Len(cs) : cs[i] = c /\ \A j \in 1..(i - 1) : cs[j] # c ELSE 0
+AllDigits(cs) == \A i \in 1..Len(cs) : IsDig(cs[i])
 
-\* <<ok, signed satoshi value>>
-ParseAmount(codes) ==
+\* <<ok, signed satoshi value, not compared>>
+ParseAmountX(codes) ==
     LET neg == codes # <<>> /\ codes[1] = 45
         body == IF neg THEN Tail(codes) ELSE codes
-        dot == IndexOf(body, 46)
-        ip == IF dot = 0 THEN body ELSE SubSeq(body, 1, dot - 1)
-        fp0 == IF dot = 0 THEN <<>> ELSE SubSeq(body, dot + 1, Len(body))
-        fp == StripTrailingZeros(fp0)
-        okInt == ip # <<>> /\ (\A i \in 1..Len(ip) : IsDig(ip[i])) /\ (Len(ip) = 1 \/ ip[1] # 48)
-        okFrac == (dot = 0) \/ (fp0 # <<>> /\ \A i \in 1..Len(fp0) : IsDig(fp0[i]))
-    IN IF ~okInt \/ ~okFrac \/ Len(fp) > 8 \/ Len(ip) > 10 THEN <<FALSE, Zero>>
-       ELSE LET padded == fp \o [i \in 1..(8 - Len(fp)) |-> 48]
-            IN <<TRUE, MkInt(neg, DigitsToNat(ip \o padded, <<>>))>>
+        e1 == IndexOf(body, 101)  e2 == IndexOf(body, 69)
+        epos == IF e1 = 0 THEN e2 ELSE IF e2 = 0 THEN e1 ELSE (IF e1 < e2 THEN e1 ELSE e2)
+        mant == IF epos = 0 THEN body ELSE SubSeq(body, 1, epos - 1)
+        ex0 == IF epos = 0 THEN <<>> ELSE SubSeq(body, epos + 1, Len(body))
+        exneg == ex0 # <<>> /\ ex0[1] = 45
+        exd == IF ex0 # <<>> /\ ex0[1] \in {43, 45} THEN Tail(ex0) ELSE ex0
+        okExp == epos = 0 \/ (exd # <<>> /\ AllDigits(exd))
+        dot == IndexOf(mant, 46)
+        ip == IF dot = 0 THEN mant ELSE SubSeq(mant, 1, dot - 1)
+        fp0 == IF dot = 0 THEN <<>> ELSE SubSeq(mant, dot + 1, Len(mant))
+        okInt == ip # <<>> /\ AllDigits(ip) /\ (Len(ip) = 1 \/ ip[1] # 48)
+        okFrac == (dot = 0) \/ (fp0 # <<>> /\ AllDigits(fp0))
+    IN IF ~okInt \/ ~okFrac \/ ~okExp THEN <<FALSE, Zero, FALSE>>
+       ELSE LET sig == StripTrailingZeros(StripLeadingZeros(ip \o fp0))                 \* significant digits of the mantissa
+                tz == Len(StripLeadingZeros(ip \o fp0)) - Len(sig)                       \* zeros dropped at its end
+                exs == StripLeadingZeros(exd)
+            IN IF sig = <<>> THEN (IF epos = 0 THEN <<TRUE, Zero, FALSE>> ELSE <<FALSE, Zero, TRUE>>)
+               ELSE IF Len(exs) > 4 THEN <<FALSE, Zero, FALSE>>                          \* 10^(+-10000 or more): never a satoshi count of 18 digits
+               ELSE LET ex == IF exneg THEN 0 - SmallNat(exs, 0) ELSE SmallNat(exs, 0)
+                        t == ex - Len(fp0) + tz + 8                                      \* satoshi = sig x 10^t
+                    IN IF t < 0 \/ Len(sig) + t > 18 THEN <<FALSE, Zero, FALSE>>
+                       ELSE <<TRUE, MkInt(neg, DigitsToNat(sig \o [i \in 1..t |-> 48], <<>>)), FALSE>>
+ParseAmount(codes) == LET r == ParseAmountX(codes) IN <<r[1], r[2]>>
 =============================================================================
